@@ -713,6 +713,9 @@ fn finish(g: &mut G, profile_name: &str, seed: u64, mut actors: Vec<ActorSpec>, 
                         // a panic raised by the message's on_tell_result (after the handler has returned) is a panic of the actor
                         flags |= F_TRPANIC;
                     }
+                    if mty == MTy::N && g.r.chance(20) {
+                        flags |= F_EAGER;
+                    }
                     if mty == MTy::J {
                         match g.r.below(6) {
                             0 => flags |= F_JPANIC,
